@@ -304,7 +304,12 @@ func renameGraphModel(t *rapid.T, m *Model) {
 				pool = gAltTerm
 			}
 			n := rapid.SampledFrom(pool).Draw(t, "newT")
-			if !usedT[n] {
+			if rapid.IntRange(0, 2).Draw(t, "freshT") == 0 {
+				// a name nobody chose: whatever is keyed by a hash, a first letter or the length of a name sees many
+				// different names over a run
+				n = rapid.StringMatching(`[a-zA-Z][a-zA-Z0-9_]{0,9}`).Draw(t, "freshTName")
+			}
+			if !usedT[n] && !reservedDefault[n] && n != "p" {
 				usedT[n] = true
 				tmap[td.Name] = n
 			}
@@ -323,7 +328,10 @@ func renameGraphModel(t *rapid.T, m *Model) {
 	for _, rn := range relNames {
 		if rapid.IntRange(0, 2).Draw(t, "renR") == 0 {
 			n := rapid.SampledFrom(gAltRel).Draw(t, "newR")
-			if !usedR[n] {
+			if rapid.IntRange(0, 2).Draw(t, "freshR") == 0 {
+				n = rapid.StringMatching(`[a-zA-Z][a-zA-Z0-9_]{0,9}`).Draw(t, "freshRName")
+			}
+			if !usedR[n] && !reservedDefault[n] && n != "p" && n != "zz" {
 				usedR[n] = true
 				rmap[rn] = n
 			}
